@@ -314,7 +314,7 @@ pub fn dup_case(c: &Case, seed: u64, out: &mut Streams, dist: &mut Dist) {
       let ctx = Ctx { ix: &ix, node: &node, g: &g, flags, chain, case: c.case, rows: &rows, secs: env::sections(&rows), events: "-", first_new_height };
       probe.run(&ctx, &mut rng, out, dist, &d);
     }
-    out.emit(&format!("index.oracle.nofail {} {}", c.case, node.height()), "true");
+    out.emit(&format!("index.oracle.nofail {} {} ok", c.case, node.height()), "true");
     dist.hit("block");
   }
   assert_eq!(dup_confirmed, 2);
